@@ -61,7 +61,7 @@ func checkTypeTables(c *Ctx) {
 		return ""
 	}
 	for _, fn := range p.SortedFuncs() {
-		ast.Inspect(fn.Decl.Body, func(n ast.Node) bool {
+		inspectFn(fn, func(n ast.Node) bool {
 			call, ok := n.(*ast.CallExpr)
 			if !ok {
 				return true
@@ -121,7 +121,7 @@ func checkTypeTables(c *Ctx) {
 	firstDecode := func(fn *core.Func) (string, token.Pos) {
 		var t string
 		var pos token.Pos
-		ast.Inspect(fn.Decl.Body, func(n ast.Node) bool {
+		inspectFn(fn, func(n ast.Node) bool {
 			if t != "" {
 				return false
 			}
@@ -145,7 +145,7 @@ func checkTypeTables(c *Ctx) {
 	}
 	packetArms, streamArms := map[string]bool{}, map[string]bool{}
 	scanSwitch := func(fn *core.Func, arms map[string]bool, inline bool) {
-		ast.Inspect(fn.Decl.Body, func(n ast.Node) bool {
+		inspectFn(fn, func(n ast.Node) bool {
 			sw, ok := n.(*ast.SwitchStmt)
 			if !ok || sw.Tag == nil || core.NamedOf(p.TypeOf(sw.Tag)) != "messageType" {
 				return true
@@ -188,7 +188,7 @@ func checkTypeTables(c *Ctx) {
 	scanSwitch(c.MustFunc("Memberlist.handleConn"), streamArms, true)
 	// initiators that await a specific reply type
 	for _, fn := range []*core.Func{c.MustFunc("Memberlist.sendAndReceiveState"), c.MustFunc("Memberlist.sendPingAndWaitForAck")} {
-		ast.Inspect(fn.Decl.Body, func(n ast.Node) bool {
+		inspectFn(fn, func(n ast.Node) bool {
 			ifs, ok := n.(*ast.IfStmt)
 			if !ok {
 				return true
@@ -214,7 +214,7 @@ func checkTypeTables(c *Ctx) {
 			} else if be.Op == token.NEQ {
 				// `if msgType != X { return err }` followed by a decode of X's struct
 				after := false
-				ast.Inspect(fn.Decl.Body, func(m ast.Node) bool {
+				inspectFn(fn, func(m ast.Node) bool {
 					if m == ast.Node(ifs) {
 						after = true
 					}
@@ -369,7 +369,7 @@ func checkLayerOrder(c *Ctx) {
 	}
 	// the checksum covers exactly what follows the 5-byte header, on both sides
 	okS, okR := false, false
-	ast.Inspect(rs.Decl.Body, func(n ast.Node) bool {
+	inspectFn(rs, func(n ast.Node) bool {
 		if call, ok := n.(*ast.CallExpr); ok {
 			if f := c.P.Callee(call); f != nil && core.FuncFullName(f) == "hash/crc32.ChecksumIEEE" && norm(c.P.Canon(call.Args[0])) == "msg" {
 				okS = true
@@ -377,7 +377,7 @@ func checkLayerOrder(c *Ctx) {
 		}
 		return true
 	})
-	ast.Inspect(ip.Decl.Body, func(n ast.Node) bool {
+	inspectFn(ip, func(n ast.Node) bool {
 		if call, ok := n.(*ast.CallExpr); ok {
 			if f := c.P.Callee(call); f != nil && core.FuncFullName(f) == "hash/crc32.ChecksumIEEE" && norm(c.P.Canon(call.Args[0])) == "buf[5:]" {
 				okR = true
@@ -428,7 +428,7 @@ func checkAADAgreement(c *Ctx) {
 	// appendBytes never aliases its first argument's spare capacity when it has to join two parts
 	ab := c.MustFunc("appendBytes")
 	okCopy := false
-	ast.Inspect(ab.Decl.Body, func(n ast.Node) bool {
+	inspectFn(ab, func(n ast.Node) bool {
 		if call, ok := n.(*ast.CallExpr); ok && c.P.Builtin(call) == "make" && len(call.Args) == 3 {
 			okCopy = true
 		}
@@ -451,7 +451,7 @@ func checkLengthAccounting(c *Ctx) {
 	el := c.MustFunc("encryptedLength")
 	form := func(fn *core.Func) string {
 		out := ""
-		ast.Inspect(fn.Decl.Body, func(n ast.Node) bool {
+		inspectFn(fn, func(n ast.Node) bool {
 			be, ok := n.(*ast.BinaryExpr)
 			if !ok || be.Op != token.SUB {
 				return true
@@ -506,7 +506,7 @@ func checkLengthAccounting(c *Ctx) {
 	// the encryptor reserves with the same helper
 	ep := c.MustFunc("encryptPayload")
 	okGrow := false
-	ast.Inspect(ep.Decl.Body, func(nd ast.Node) bool {
+	inspectFn(ep, func(nd ast.Node) bool {
 		if call, isC := nd.(*ast.CallExpr); isC {
 			if f := p.Callee(call); f != nil && f.Name() == "encryptedLength" && len(call.Args) == 2 && norm(p.Canon(call.Args[0])) == "vsn" && norm(p.Canon(call.Args[1])) == "len(msg)" {
 				okGrow = true
